@@ -364,6 +364,15 @@ Fixpoint lw_run (s : wtiny) (os : list wop) : res (wtiny * list hout) :=
   | o :: rest => do (s1, r) <- lw_step s o; do (s2, rs) <- lw_run s1 rest; Ok (s2, r :: rs)
   end.
 
+Lemma wtiny_run_refines : forall os h s ls, RW h s ls -> wt_inv ls ->
+            exists h1 s1 ls1 outs, hw_run h s os = HOk (h1, s1, outs) /\ lw_run ls os = Ok (ls1, outs) /\ RW h1 s1 ls1.
+Proof.
+ induction os as [|o rest IH]; intros h s ls HR Hinv; [cbn; eauto 10|].
+    cbn [hw_run lw_run].
+    destruct (wtiny_step_refines h s ls o HR Hinv) as (h1 & s1 & ls1 & r & -> & -> & HR1 & Hinv1). cbn [hbind bind].
+    destruct (IH h1 s1 ls1 HR1 Hinv1) as (h2 & s2 & ls2 & outs & -> & -> & HR2). cbn [hbind bind]. eauto 10.
+Qed.
+
 Theorem wtiny_history_safe t kh wc pc fc os :
   wt_inv (mkWTiny t (lru_new wc false) (slru_new pc fc) kh) ->
   exists h s ls outs h',
@@ -372,12 +381,7 @@ Theorem wtiny_history_safe t kh wc pc fc os :
     hw_drop h s = HOk h' /\ (forall a, cells h' a = Free).
 Proof.
   intros Hinv0.
-  assert (G : forall os h s ls, RW h s ls -> wt_inv ls ->
-            exists h1 s1 ls1 outs, hw_run h s os = HOk (h1, s1, outs) /\ lw_run ls os = Ok (ls1, outs) /\ RW h1 s1 ls1).
-  { clear. induction os as [|o rest IH]; intros h s ls HR Hinv; [cbn; eauto 10|].
-    cbn [hw_run lw_run].
-    destruct (wtiny_step_refines h s ls o HR Hinv) as (h1 & s1 & ls1 & r & -> & -> & HR1 & Hinv1). cbn [hbind bind].
-    destruct (IH h1 s1 ls1 HR1 Hinv1) as (h2 & s2 & ls2 & outs & -> & -> & HR2). cbn [hbind bind]. eauto 10. }
+  pose proof wtiny_run_refines as G.
   destruct (G os _ _ _ (hw_new_refines t kh wc pc fc) Hinv0) as (h & s & ls & outs & E1 & E2 & HR).
   destruct (hw_drop_ok h s ls HR) as (h' & Ed & Hall).
   exists h, s, ls, outs, h'. auto.
